@@ -259,8 +259,9 @@ func (g *tplGen) fragRef() string {
 	if r.p(10) {
 		return r.pick([]string{"nofrag", "${nope}", "${fr}x"})
 	}
-	if r.p(20) {
-		return "${fr}"
+	if r.p(25) {
+		// names computed from the data: a pure block, and literal text mixed with blocks (f1 / f2 according to `a`)
+		return r.pick([]string{"${fr}", "${fr}", "f${a}", "f${a}${''}", "${'f'}${a}"})
 	}
 	return g.fragName()
 }
